@@ -123,6 +123,21 @@ func (c *FnCtx) doCall(res *ssa.Call, cc *ssa.CallCommon, site ssa.Instruction) 
 		afterArgs = args
 	}
 
+	// trivial field-address accessors (e.g. func (rr *OPT) Header() *RR_Header { return &rr.Hdr }) are inlined
+	if fn != nil && len(args) >= 1 {
+		if fi, ok := fieldAddrAccessor(fn); ok {
+			x := args[0]
+			c.nilCheck(x, true, "accessor "+fn.Name())
+			pt := fn.Params[0].Type().Underlying().(*types.Pointer)
+			r := Val{T: x.T, Ty: fn.Signature.Results().At(0).Type(), BaseTy: x.BaseTy}
+			if len(x.Path) == 0 {
+				r.BaseTy = pt.Elem()
+			}
+			r.Path = append(append([]step{}, x.Path...), step{field: fi})
+			setRes([]Val{r})
+			return
+		}
+	}
 	if k, ok := isNoopCallee(name); ok {
 		c.used["model: "+k+" calls are no-ops on verified state"] = true
 		setRes(freshResults("noop"))
@@ -133,6 +148,10 @@ func (c *FnCtx) doCall(res *ssa.Call, cc *ssa.CallCommon, site ssa.Instruction) 
 	}
 	if name == "sort.Slice" && c.sortSliceModel(cc) {
 		setRes(nil)
+		return
+	}
+	if v, ok := c.binaryAppendModel(name, cc, args); ok {
+		setRes([]Val{v})
 		return
 	}
 	// closure created in this function and called directly / passed along: calling a closure
@@ -158,6 +177,12 @@ func (c *FnCtx) doCall(res *ssa.Call, cc *ssa.CallCommon, site ssa.Instruction) 
 		vs := c.applyContract(fc, fn, cc, args, resTy, name, ord)
 		setRes(vs)
 		return
+	}
+	if fn != nil && c.canInline(fn) {
+		if vs, ok := c.inlineCall(fn, args, resTy); ok {
+			setRes(vs)
+			return
+		}
 	}
 	if fn != nil && c.g.isPure(fn) {
 		c.usedPure[shortName(name)] = true
@@ -502,13 +527,32 @@ func (c *FnCtx) clearSlice(s Val, et types.Type) {
 func (c *FnCtx) appendOp(cc *ssa.CallCommon) Val {
 	s := c.val(cc.Args[0])
 	t := c.val(cc.Args[1])
-	st := cc.Args[0].Type().Underlying().(*types.Slice)
-	et := st.Elem()
 	tIsString := false
 	if b, ok := cc.Args[1].Type().Underlying().(*types.Basic); ok && b.Info()&types.IsString != 0 {
 		tIsString = true
 		c.declStrings()
 	}
+	return c.appendCore(cc, s, t, cc.Args[0].Type(), tIsString)
+}
+
+// appendBytes models appending the given byte terms to byte slice s (used by the models of
+// encoding/binary's AppendUintNN).
+func (c *FnCtx) appendBytes(cc *ssa.CallCommon, s Val, sTy types.Type, bytes []string) Val {
+	r := c.allocRef("appendsrc")
+	et := types.Typ[types.Uint8]
+	arr := "((as const (Array " + c.mode.idxSort() + " " + c.sortOf(et) + ")) " + c.zero(et) + ")"
+	for i, b := range bytes {
+		arr = sto(arr, c.mode.idxLit(int64(i)), b)
+	}
+	c.setRegion(c.elemsHeap(et), r, arr)
+	n := c.mode.idxLit(int64(len(bytes)))
+	t := Val{T: "(mk_slice " + r + " " + c.mode.idxLit(0) + " " + n + " " + n + ")", Ty: sTy}
+	return c.appendCore(cc, s, t, sTy, false)
+}
+
+func (c *FnCtx) appendCore(cc *ssa.CallCommon, s, t Val, sTy types.Type, tIsString bool) Val {
+	st := sTy.Underlying().(*types.Slice)
+	et := st.Elem()
 	I := c.mode.idxSort()
 	z := c.mode.idxLit(0)
 	n := "(s_len " + t.T + ")"
@@ -527,9 +571,10 @@ func (c *FnCtx) appendOp(cc *ssa.CallCommon) Val {
 		"(mk_slice (s_reg "+s.T+") (s_off "+s.T+") "+newLen+" (s_cap "+s.T+"))",
 		"(mk_slice "+freshReg+" "+z+" "+newLen+" "+newCap+")")))
 	if c.mode == ModeBV {
-		c.assume(c.typeFact(r, cc.Args[0].Type()))
+		c.assume(c.typeFact(r, sTy))
 	}
-	// source element i
+	// source element i (read in the state before the append)
+	preHeap := c.heap.clone()
 	srcElem := func(i string, field int) string {
 		if tIsString {
 			return "(sbyte " + t.T + " " + i + ")"
@@ -538,7 +583,7 @@ func (c *FnCtx) appendOp(cc *ssa.CallCommon) Val {
 		if isStruct(et) {
 			return sel(c.heap[c.fieldHeap(et, field)], "(elt (s_reg "+t.T+") "+pos+")")
 		}
-		return sel(c.regionArr(c.heap, c.elemsHeap(et), "(s_reg "+t.T+")"), pos)
+		return sel(c.regionArr(preHeap, c.elemsHeap(et), "(s_reg "+t.T+")"), pos)
 	}
 	if isStruct(et) {
 		su := et.Underlying().(*types.Struct)
@@ -564,12 +609,12 @@ func (c *FnCtx) appendOp(cc *ssa.CallCommon) Val {
 			c.heap[name] = nh
 		}
 		_ = srcElem
-		return Val{T: r, Ty: cc.Args[0].Type()}
+		return Val{T: r, Ty: sTy}
 	}
 	name := c.elemsHeap(et)
 	if c.discover {
 		c.havocHeap(name)
-		return Val{T: r, Ty: cc.Args[0].Type()}
+		return Val{T: r, Ty: sTy}
 	}
 	oldArr := c.regionArr(c.heap, name, "(s_reg "+s.T+")")
 	arr := c.fresh("apparr", "(Array "+I+" "+c.sortOf(et)+")")
@@ -578,7 +623,15 @@ func (c *FnCtx) appendOp(cc *ssa.CallCommon) Val {
 	base := ite(fits, sel(oldArr, "i"), ite(and(c.idxLe(z, rel), c.idxLt(rel, "(s_len "+s.T+")")), sel(oldArr, c.idxAdd("(s_off "+s.T+")", rel)), c.zero(et)))
 	c.define("(forall ((i " + I + ")) (! (= (select " + arr + " i) (ite " + appended + " " + srcElem(c.idxSub(rel, "(s_len "+s.T+")"), 0) + " " + base + ")) :pattern ((select " + arr + " i))))")
 	c.setRegion(name, "(s_reg "+r+")", arr)
-	return Val{T: r, Ty: cc.Args[0].Type()}
+	// element-wise consequences of the definition above, stated over slice positions so that
+	// reads r[k] match them directly (no arithmetic inside the triggers)
+	an := c.regionArr(c.heap, name, "(s_reg "+r+")")
+	q := c.fresh("ai", I)
+	_ = q
+	elemR := "(select " + an + " (spos " + r + " i))"
+	c.define("(forall ((i " + I + ")) (! (=> (and " + c.idxLe(z, "i") + " " + c.idxLt("i", "(s_len "+s.T+")") + ") (= " + elemR + " (select " + oldArr + " (spos " + s.T + " i)))) :pattern (" + elemR + ")))")
+	c.define("(forall ((i " + I + ")) (! (=> (and " + c.idxLe("(s_len "+s.T+")", "i") + " " + c.idxLt("i", newLen) + ") (= " + elemR + " " + srcElem(c.idxSub("i", "(s_len "+s.T+")"), 0) + ")) :pattern (" + elemR + ")))")
+	return Val{T: r, Ty: sTy}
 }
 
 func srcElemAt(c *FnCtx, old string, t Val, et types.Type, field int, i string, isStr bool) string {
@@ -633,4 +686,212 @@ func heapInPkg(name, pkg string) bool {
 		}
 	}
 	return false
+}
+
+// fieldAddrAccessor recognises functions whose whole body is `return &recv.field`.
+func fieldAddrAccessor(fn *ssa.Function) (int, bool) {
+	if len(fn.Blocks) != 1 || len(fn.Params) != 1 || fn.Signature.Results().Len() != 1 {
+		return 0, false
+	}
+	var fa *ssa.FieldAddr
+	for _, in := range fn.Blocks[0].Instrs {
+		switch x := in.(type) {
+		case *ssa.DebugRef:
+		case *ssa.FieldAddr:
+			if fa != nil || x.X != ssa.Value(fn.Params[0]) {
+				return 0, false
+			}
+			fa = x
+		case *ssa.Return:
+			if fa == nil || len(x.Results) != 1 || x.Results[0] != ssa.Value(fa) {
+				return 0, false
+			}
+			return fa.Field, true
+		default:
+			return 0, false
+		}
+	}
+	return 0, false
+}
+
+// canInline: small loop-free callees without a contract are executed in place (their real body),
+// which is more precise than treating them as pure or as havoc.
+func (c *FnCtx) canInline(fn *ssa.Function) bool {
+	if fn.Blocks == nil || len(c.inlineStack) >= 3 || fn.Recover != nil || len(fn.FreeVars) > 0 {
+		return false
+	}
+	for _, f := range c.inlineStack {
+		if f == fn {
+			return false
+		}
+	}
+	if fn == c.fn {
+		return false
+	}
+	n := 0
+	for _, b := range fn.Blocks {
+		for _, s := range b.Succs {
+			if s.Dominates(b) {
+				return false // loop
+			}
+		}
+		for _, in := range b.Instrs {
+			n++
+			switch x := in.(type) {
+			case *ssa.Defer, *ssa.Go, *ssa.Select, *ssa.Send, *ssa.MakeClosure, *ssa.RunDefers, *ssa.Range, *ssa.Next, *ssa.Panic:
+				return false
+			case *ssa.Call:
+				// only leaf-like callees are inlined: their own calls must be builtins, no-ops, or again inlinable/pure
+				if _, isB := x.Call.Value.(*ssa.Builtin); isB {
+					continue
+				}
+				callee := x.Call.StaticCallee()
+				if callee == nil {
+					return false
+				}
+				if _, noop := isNoopCallee(callee.String()); noop {
+					continue
+				}
+				if c.g.cs.Funcs[callee.String()] != nil {
+					return false
+				}
+				if _, acc := fieldAddrAccessor(callee); acc {
+					continue
+				}
+				c.inlineStack = append(c.inlineStack, fn)
+				ok := c.canInline(callee)
+				c.inlineStack = c.inlineStack[:len(c.inlineStack)-1]
+				if !ok && !c.g.isPure(callee) {
+					return false
+				}
+			}
+		}
+	}
+	if c.fc != nil {
+		for _, o := range c.fc.Opaque {
+			if o == shortName(fn.String()) {
+				return false
+			}
+		}
+	}
+	return n <= 60
+}
+
+func (c *FnCtx) inlineCall(fn *ssa.Function, args []Val, resTy types.Type) (out []Val, ok bool) {
+	if len(args) != len(fn.Params) {
+		return nil, false
+	}
+	// save caller context
+	sFn, sBlock, sIdx, sLoops, sReach, sEntry := c.fn, c.curBlock, c.curIdx, c.loops, c.reach, c.entryReach
+	sRets, sPkg := c.inlineRets, c.pkg
+	defer func() {
+		c.fn, c.curBlock, c.curIdx, c.loops, c.entryReach = sFn, sBlock, sIdx, sLoops, sEntry
+		c.inlineStack = c.inlineStack[:len(c.inlineStack)-1]
+		c.pkg = sPkg
+		c.inlineRets = sRets
+	}()
+	if len(c.inlineStack) == 0 {
+		c.outerBlock = sBlock
+	}
+	c.inlineStack = append(c.inlineStack, fn)
+	c.inlineRets = nil
+	c.fn = fn
+	if fn.Pkg != nil {
+		c.pkg = fn.Pkg.Pkg
+	}
+	for i, p := range fn.Params {
+		c.vals[p] = args[i]
+	}
+	c.entryReach = sReach
+	c.runBody()
+	rets := c.inlineRets
+	c.usedInlined[shortName(fn.String())] = true
+	if len(rets) == 0 {
+		// callee never returns normally
+		c.reach = "false"
+		var vs []Val
+		if tt, isT := resTy.(*types.Tuple); isT {
+			for i := 0; i < tt.Len(); i++ {
+				vs = append(vs, c.havocVal(tt.At(i).Type(), "noret"))
+			}
+		} else {
+			vs = []Val{c.havocVal(resTy, "noret")}
+		}
+		return vs, true
+	}
+	// merge return states
+	var conds []string
+	for _, r := range rets {
+		conds = append(conds, r.reach)
+	}
+	c.reach = or(conds...)
+	if len(c.reach) > 40 && !c.discover {
+		rn := c.fresh("R", "Bool")
+		c.define(eq(rn, c.reach))
+		c.reach = rn
+	}
+	nres := len(rets[0].results)
+	for i := 0; i < nres; i++ {
+		t := rets[len(rets)-1].results[i].T
+		for k := len(rets) - 2; k >= 0; k-- {
+			if len(rets[k].results[i].Path) > 0 {
+				c.unsup("inlined callee %s returns an interior pointer on several paths", fn.Name())
+			}
+			t = ite(rets[k].reach, rets[k].results[i].T, t)
+		}
+		v := rets[0].results[i]
+		if len(rets) > 1 {
+			v = Val{T: t, Ty: rets[0].results[i].Ty}
+			if len(t) > 60 && !c.discover {
+				n := c.fresh("inl_"+fn.Name(), c.sortOf(v.Ty))
+				c.define(eq(n, t))
+				v.T = n
+			}
+		}
+		out = append(out, v)
+	}
+	// heap
+	if len(rets) == 1 {
+		c.heap, c.ghost = rets[0].heap, rets[0].ghost
+	} else {
+		nh := Heap{}
+		var hs []Heap
+		for _, r := range rets {
+			hs = append(hs, r.heap)
+		}
+		for _, name := range heapNamesSorted(hs...) {
+			t0 := c.heapTerm(rets[0].heap, name)
+			same := true
+			for _, r := range rets[1:] {
+				if c.heapTerm(r.heap, name) != t0 {
+					same = false
+				}
+			}
+			if same {
+				nh[name] = t0
+				continue
+			}
+			if c.discover {
+				nh[name] = name
+				continue
+			}
+			m := c.heapTerm(rets[len(rets)-1].heap, name)
+			for k := len(rets) - 2; k >= 0; k-- {
+				m = ite(rets[k].reach, c.heapTerm(rets[k].heap, name), m)
+			}
+			n := c.fresh(strings.Trim(name, "|"), c.heapSort(name))
+			c.define(eq(n, m))
+			nh[name] = n
+			var vers []string
+			for _, r := range rets {
+				vers = append(vers, c.heapTerm(r.heap, name))
+			}
+			hsrt := c.heapSort(name)
+			valSort := strings.TrimSuffix(strings.TrimPrefix(hsrt, "(Array Int "), ")")
+			c.mergeKnown(n, conds, vers, strings.HasPrefix(strings.Trim(name, "|"), "Elems "), valSort)
+		}
+		c.heap = nh
+		c.ghost = rets[0].ghost
+	}
+	return out, true
 }
